@@ -111,6 +111,11 @@ class LogArr(np.ndarray):
             return int(res)
         return res
 
+    def __iter__(self):
+        # iteration reads element k at the start of iteration k (no trailing probe)
+        for k in range(len(self)):
+            yield self[k]
+
     def __setitem__(self, key, value):
         self._log(1, key)
         val = np.asarray(value)
@@ -143,6 +148,13 @@ class NpProxy:
     def empty(self, *a, **k): return self._wrap(np.zeros(*a, **k))   # deterministic content
     def arange(self, *a, **k): return self._wrap(np.arange(*a, **k))
     def array(self, *a, **k): return self._wrap(np.array(*a, **k))
+
+    def argmin(self, a):
+        # the data-dependent index is handed to the model through the oracle, in unary
+        r = int(np.argmin(a))
+        n = int(np.size(a))
+        CMP.extend([True] * r + ([False] if r < n - 1 else []))
+        return r
 
     def __getattr__(self, name):
         return getattr(np, name)
